@@ -403,7 +403,27 @@ def run(*, tier, seed, jobs, progress, opts):
                     mt['by_preemptions'][str(k)] = \
                         mt['by_preemptions'].get(str(k), 0) + n
                 violations += r['violations']
+    # the threading read-write lock between real threads, scheduled at every
+    # operation of its two inner mutexes
+    from . import c20thr
+    thr = {'programs': 0, 'executions': 0, 'by_preemptions': {},
+           'distinct_outcomes': 0, 'complete_programs': 0}
+    with mp.get_context('fork').Pool(njobs) as pool:
+        for r in pool.imap_unordered(c20thr.task, c20thr.tasks(tier),
+                                     chunksize=1):
+            if 'error' in r:
+                raise RuntimeError(f'thread harness error: {r}')
+            thr['programs'] += 1
+            thr['executions'] += r['executions']
+            thr['distinct_outcomes'] += r['outcomes']
+            thr['complete_programs'] += 1 if r['bound'] is None else 0
+            for k, n in r['by_preemptions'].items():
+                thr['by_preemptions'][str(k)] = \
+                    thr['by_preemptions'].get(str(k), 0) + n
+            violations += r['violations']
+    mt['executions'] += thr['executions']
     cov = {'states': st + fst, 'transitions': tr + ftr + mt['executions'],
+           'threading_rwlock': thr,
            'traces_validated_against_impl': ex + fex + mt['executions'],
            'filelock_threads': mt,
            'asyncio_rwlock': {'programs': len(progs),
@@ -424,13 +444,20 @@ def run(*, tier, seed, jobs, progress, opts):
                     'locked read-modify-write of a counter file, bodies that '
                     'raise, a second acquisition, readers, a fresh foreign '
                     'lock file and an expired one; every schedule of their '
-                    'filesystem calls with <= 2 (thorough 3) preemptions')}
+                    'filesystem calls with <= 2 (thorough 3) preemptions; '
+                    'threading read-write lock: real threads with the inner '
+                    'mutexes replaced by scheduler-aware ones (scheduling '
+                    'point before every acquire/release and inside every '
+                    'section), two-thread programs completely, three-thread '
+                    'programs with <= 2 (thorough 3) preemptions')}
     return finish(PROP, tier=tier, seed=seed, level='model_checking',
                   coverage=cov, violations=violations, t0=t0, assumptions=[
                       'asyncio read-write lock on the virtual event loop; '
                       'FileLock on the virtual loop and, under E7, between '
                       'threads/processes at filesystem-call granularity; the '
-                      'threading read-write lock is not explored',
+                      'threading read-write lock between real threads at '
+                      'mutex-operation granularity (no cancellation: a thread '
+                      'blocked in Lock.acquire cannot be cancelled)',
                       'FileLock holders hold for less than the expiry; '
                       'FileLock readers only wait for absence (reader/writer '
                       'overlap is not claimed by the property)'])
@@ -438,6 +465,15 @@ def run(*, tier, seed, jobs, progress, opts):
 
 def replay(rec):
     r = rec['replay']
+    if r.get('thr'):
+        from . import c20thr
+        raises = tuple(tuple(x) for x in r['raises'])
+        ex, info = c20thr.run_schedule(tuple(r['program']), r['prefix'],
+                                       raises)
+        viols = c20thr.judge(tuple(r['program']), raises, ex, info)
+        for v in viols:
+            print('VIOLATION-REPLAYED', v['rule'], v['site'], v['msg'])
+        return 1 if viols else 0
     if r.get('mt'):
         from . import c20mt
         from ..worlds import scratch_parent
